@@ -1019,7 +1019,8 @@ func (r *run) stepMove(t *rapid.T) {
 func (r *run) stepAppend(t *rapid.T) {
 	var plan *imap.AppendData
 	if rapid.IntRange(0, 3).Draw(t, "append.nil") != 0 {
-		plan = &imap.AppendData{UID: imap.UID(gen.U32(t, "append.uid")), UIDValidity: gen.U32(t, "append.uidv")}
+		// append-uid and uidvalidity are nz-numbers: a backend returning 0 is outside the domain
+		plan = &imap.AppendData{UID: imap.UID(gen.U32(t, "append.uid") | 1), UIDValidity: gen.U32(t, "append.uidv") | 1}
 	}
 	r.p.Core.OnAppend = func(string, []byte, *imap.AppendOptions) (*imap.AppendData, error) { return plan, nil }
 	want := "uid=0 uidvalidity=0"
